@@ -19,6 +19,7 @@ TAG = hashlib.sha1(REPO.encode()).hexdigest()[:8]
 GUARD = "frozenlib_derive_ex_verif"
 NPROC = int(os.environ.get("DX_JOBS", "16"))
 EDITION = "2021"
+NMARK = 48  # number of marker traits M<0>..M<NMARK-1> known to dxrt
 
 ENV = dict(os.environ)
 ENV["CARGO_NET_OFFLINE"] = "true"
@@ -152,10 +153,14 @@ def build_rt():
     """dxrt: probe types / recorders shared by all generated programs."""
     if "rt" in _built:
         return _built["rt"]
-    src = os.path.join(ROOT, "rt", "dxrt.rs")
+    src0 = os.path.join(ROOT, "rt", "dxrt.rs")
+    src = os.path.join(CACHE, "dxrt_full.rs")
     out = os.path.join(CACHE, "libdxrt.rlib")
-    if not os.path.exists(out) or os.path.getmtime(out) < os.path.getmtime(src):
+    if not os.path.exists(out) or os.path.getmtime(out) < os.path.getmtime(src0):
         os.makedirs(CACHE, exist_ok=True)
+        gen = "\n".join(f"impl M<{j}> for AllBut<{i}> {{}}" for i in range(NMARK) for j in range(NMARK) if i != j)
+        with open(src, "w") as f:
+            f.write(open(src0).read().replace("// @@MARKERS@@", gen + "\n// "))
         r = sh(["rustc", "--edition", EDITION, "--crate-type", "rlib", "--crate-name", "dxrt",
                 "-C", "opt-level=1", "-C", "debuginfo=0", "-A", "warnings", src, "-o", out + ".tmp"])
         if r.returncode != 0:
